@@ -670,23 +670,20 @@ def sec_ionq_reject(ctx, rng, case):
 
 
 def _ionq_meas_modifiers(ctx, rng, case):
-    """A measurement whose outcome is post-processed (invert_mask / confusion_map) cannot be expressed in the payload
-    or the metadata; the property demands rejection rather than silent loss."""
+    """A measurement whose recorded bits are flipped (invert_mask - a logical part of the circuit, serialized by
+    cirq_google, explicitly refused by cirq_pasqal) cannot be expressed in the IonQ payload or metadata; the property
+    demands rejection rather than silent loss.  (confusion_map is left out: it models readout noise.)"""
     import cirq
     import cirq_ionq
 
     ser = cirq_ionq.Serializer()
     n = int(rng.integers(1, 4))
     qs = cirq.LineQubit.range(n)
-    if case % 2 == 0:
-        mask = tuple(bool(rng.integers(2)) for _ in range(n))
-        if not any(mask):
-            mask = (True,) + mask[1:]
-        m = cirq.measure(*qs, key="m", invert_mask=mask)
-        kind = "invert_mask"
-    else:
-        m = cirq.measure(qs[0], key="m", confusion_map={(0,): np.array([[0.9, 0.1], [0.2, 0.8]])})
-        kind = "confusion_map"
+    mask = tuple(bool(rng.integers(2)) for _ in range(n))
+    if not any(mask):
+        mask = (True,) + mask[1:]
+    m = cirq.measure(*qs, key="m", invert_mask=mask)
+    kind = "invert_mask"
     circuit = cirq.Circuit(cirq.X(qs[0]) ** 0.5, m)
     try:
         sp = ser.serialize_single_circuit(circuit)
@@ -1339,14 +1336,14 @@ def sec_pasqal(ctx, rng, case):
 
 def sec_measurement_limits(ctx, rng, case):
     """Measurements the vendor formats cannot carry (IonQ) / the one measurement AQT documents as allowed."""
-    if case % 3 == 2:
+    if case % 2:
         _aqt_measure(ctx, rng, case)
     else:
-        _ionq_meas_modifiers(ctx, rng, case // 3 * 2 + case % 3)
+        _ionq_meas_modifiers(ctx, rng, case)
 
 
 SECTIONS = [
-    ("ionq_payload", sec_ionq_payload, 3000, 90000, 3.0),
+    ("ionq_payload", sec_ionq_payload, 5000, 150000, 3.0),
     ("ionq_batch", sec_ionq_batch, 600, 18000, 1.5),
     ("ionq_reject", sec_ionq_reject, 900, 27000, 1.0),
     ("ionq_results", sec_ionq_results, 2000, 60000, 2.0),
